@@ -96,7 +96,11 @@ META = {
         "configuration stored on the Sphinx environment controls its pickled state (__getstate__) for fields that can hold a function. R20 a "
         "transform that deletes a node attribute reads it only under a membership test (transforms run twice for rST include with :parser:). "
         "R21 the renderer's finalisation drops queued transforms whose pending node left the document. R22 pending(Filter, component=..) "
-        "nodes only name transformer components that always exist (html_meta's component='writer' is a known finding). R24 a registered transform with a priority below sphinx's HandleCodeBlocks takes every childless block_quote that carries a basic "
+        "nodes only name transformer components that always exist (html_meta's component='writer' is a known finding). R27 a key or value of a YAML-loaded mapping (followed into the package methods it is passed to) reaches docutils' Text / "
+        "TextElement(raw, text) constructors only as a provable str - str(..), an isinstance guard or the normalisation `if not "
+        "isinstance(k, str): k = str(k)` - because nodes.Text raises TypeError for bytes (read from docutils/nodes.py). R23 also covers a "
+        "list of traversals materialised before the loop. R18(b) also judges module-level Jinja environments. "
+        "R24 a registered transform with a priority below sphinx's HandleCodeBlocks takes every childless block_quote that carries a basic "
         "attribute out of the tree (facts read from sphinx/transforms). R25 every text handed to markdown-it's block parser provably ends "
         "with a line feed (the plugins' block rules read the start of the next line unchecked). R26 render_substitution never renders "
         "block-level text while its `inline` parameter is true (known finding: a value that starts a directive). R5 also accepts a fixpoint "
@@ -1668,7 +1672,7 @@ def _inside_broad_try(use: ast.AST, mapping_use: bool) -> bool:
     return False
 
 
-def _normalised_before(fi: FunctionInfo, cfg, var: str, use_stmt) -> bool:
+def _normalised_before(fi: FunctionInfo, cfg, var: str, use_stmt, only_types: set[str] | None = None) -> bool:
     """A dominating ``if not isinstance(var, T): ...; var = <literal of type T>`` (no else, the branch falls through):
     after it ``var`` is a T on every path; nothing re-binds it between that statement and the use."""
     lit_types = {ast.Dict: "dict", ast.List: "list", ast.Tuple: "tuple", ast.Set: "set"}
@@ -1684,8 +1688,8 @@ def _normalised_before(fi: FunctionInfo, cfg, var: str, use_stmt) -> bool:
         if not stores or isinstance(I.body[-1], (ast.Return, ast.Raise, ast.Continue, ast.Break)):
             continue
         last = stores[-1].value
-        lt = lit_types.get(type(last)) or ((dotted(last.func) if isinstance(last, ast.Call) and not last.args and not last.keywords else None))
-        if lt not in tnames:
+        lt = lit_types.get(type(last)) or ((dotted(last.func) if isinstance(last, ast.Call) and ((not last.args and not last.keywords) or dotted(last.func) == "str") else None))
+        if lt not in tnames or (only_types is not None and not tnames <= only_types):
             continue
         if not (cfg.dominates(I, use_stmt) and I is not use_stmt):
             continue
@@ -3465,12 +3469,12 @@ def r18_document_chosen_code(corpus: Corpus, rep: Report, tier: str):
     n_env = 0
     _SAFETY = ("is_safe_attribute", "is_safe_callable", "call", "getattr", "getitem", "unsafe_undefined", "call_binop", "call_unop", "format_string")
 
-    def env_class(fi: FunctionInfo, c: ast.Call) -> tuple[str, list[str]] | None:
+    def env_class(mod, c: ast.Call) -> tuple[str, list[str]] | None:
         """(jinja2 base class, safety methods overridden by package subclasses on the way) for an Environment constructor."""
-        full = fi.module.resolve(dotted(c.func) or "")
+        full = mod.resolve(dotted(c.func) or "")
         if full.startswith("jinja2.") and full.rsplit(".", 1)[-1].endswith("Environment"):
             return (full, [])
-        ci = corpus.find_class(full) or fi.module.classes.get(dotted(c.func) or "")
+        ci = corpus.find_class(full) or mod.classes.get(dotted(c.func) or "")
         overridden: list[str] = []
         seen_ = set()
         while ci is not None and ci.fq not in seen_:
@@ -3484,13 +3488,23 @@ def r18_document_chosen_code(corpus: Corpus, rep: Report, tier: str):
             ci = nxt
         return None
 
+    # every construction in the package: inside functions and at module / class level (a shared environment)
+    ctor_sites: list[tuple[object, str, ast.Call]] = []
     for fi in corpus.all_functions():
-        if fi.is_lambda:
-            continue
-        for c in fi.local_nodes():
-            if not isinstance(c, ast.Call):
-                continue
-            ec = env_class(fi, c)
+        if not fi.is_lambda:
+            ctor_sites += [(fi.module, fi.fq, c) for c in fi.local_nodes() if isinstance(c, ast.Call)]
+    for m_ in corpus.modules.values():
+        in_funcs = {id(x) for f_ in m_.functions.values() for x in ast.walk(f_.node)}
+        ctor_sites += [(m_, f"{m_.name}:<module>", c) for c in ast.walk(m_.tree) if isinstance(c, ast.Call) and id(c) not in in_funcs]
+
+    class _Site:  # what the report lines below need from a FunctionInfo
+        def __init__(self, mod, fq):
+            self.module, self.fq = mod, fq
+
+    for mod_, fq_, c in ctor_sites:
+        if True:
+            fi = _Site(mod_, fq_)
+            ec = env_class(mod_, c)
             if ec is None:
                 continue
             full, overridden = ec
@@ -3721,7 +3735,23 @@ def _traversal_roots(e: ast.expr, fi: FunctionInfo, depth: int = 0) -> int | Non
         return None
     if isinstance(e, ast.Name):
         d = _single_def(fi, e)
-        return None if d is e else _traversal_roots(d, fi, depth + 1)
+        if d is not e:
+            return _traversal_roots(d, fi, depth + 1)
+        # the variable of an enclosing loop over a collection OF traversals: when that collection was materialised before
+        # the loop (`for ns in [list(r.findall(T)) for r in roots]`) every traversal ran before anything was removed -
+        # the same as one flattened list; a lazy one (generator expression / map) runs each traversal in its turn
+        for lp in fi.local_nodes():
+            if isinstance(lp, ast.For) and isinstance(lp.target, ast.Name) and lp.target.id == e.id and any(e is x for b in lp.body for x in ast.walk(b)):
+                it = lp.iter
+                if isinstance(it, ast.Name):
+                    it = _single_def(fi, it)
+                eager = isinstance(it, ast.ListComp) or (isinstance(it, ast.Call) and dotted(it.func) in ("list", "tuple", "sorted") and len(it.args) == 1 and isinstance(it.args[0], (ast.GeneratorExp, ast.ListComp, ast.Call)))
+                comp = it if isinstance(it, (ast.ListComp, ast.GeneratorExp)) else (it.args[0] if isinstance(it, ast.Call) and it.args and isinstance(it.args[0], (ast.ListComp, ast.GeneratorExp)) else None)
+                if comp is not None and _traversal_roots(comp.elt, fi, depth + 1) is not None:
+                    return 2 if eager else 1
+                if isinstance(it, (ast.List, ast.Tuple)) and it.elts and all(_traversal_roots(x, fi, depth + 1) is not None for x in it.elts):
+                    return 2 if len(it.elts) > 1 else 1
+        return None
     if isinstance(e, ast.Call) and dotted(e.func) in ("list", "tuple", "sorted", "reversed") and len(e.args) == 1:
         return _traversal_roots(e.args[0], fi, depth + 1)
     if isinstance(e, ast.Call) and dotted(e.func) in ("set", "frozenset") or (isinstance(e, ast.Call) and unparse(e.func) == "dict.fromkeys"):
@@ -4023,12 +4053,169 @@ def r26_inline_substitution(corpus: Corpus, rep: Report, tier: str):
         rep.error("C01.R26", f"expected the inline and the block nested render of render_substitution, found {n}")
 
 
+# ---------------------------------------------------------------------------
+# R27 YAML keys and values become docutils text only as str
+#
+# docutils' ``nodes.Text.__new__`` raises TypeError for bytes (``nodes.TextElement(raw, text)`` builds a Text from its
+# second argument).  A key or value of a YAML mapping can be bytes (``? !!binary aGVsbG8=``), a number, None, ...: before
+# it is handed to a docutils text constructor it must provably be a str.
+
+
+def _docutils_text_constructors(corpus: Corpus) -> tuple[bool, set[str]]:
+    """(Text.__new__ rejects bytes, names of the TextElement classes) read from docutils/nodes.py."""
+
+    def compute():
+        m = corpus.sibling("docutils/nodes.py")
+        t = m.classes.get("Text")
+        new = t.methods.get("__new__") if t is not None else None
+        rejects = new is not None and any(isinstance(r, ast.Raise) and "TypeError" in unparse(r) for r in new.local_nodes()) and any(
+            isinstance(c, ast.Call) and dotted(c.func) == "isinstance" and "bytes" in unparse(c) for c in new.local_nodes()
+        )
+        te: set[str] = {"TextElement"}
+        changed = True
+        while changed:
+            changed = False
+            for name, ci in m.classes.items():
+                if name not in te and any(b.rsplit(".", 1)[-1] in te for b in ci.bases):
+                    te.add(name)
+                    changed = True
+        return (rejects, te)
+
+    return corpus.cache("c01-docutils-text-ctors", compute)
+
+
+def _yaml_mappings(corpus: Corpus) -> list[tuple[FunctionInfo, str]]:
+    """(function, local name) pairs that hold a mapping loaded from YAML: the safe_load results, what is built from
+    their items by a comprehension, and the parameters of package methods that receive one of those."""
+    g = get_callgraph(corpus)
+    out: list[tuple[FunctionInfo, str]] = []
+    work: list[tuple[FunctionInfo, str]] = []
+    for fi in corpus.all_functions():
+        if fi.is_lambda:
+            continue
+        for st in fi.local_nodes():
+            if isinstance(st, ast.Assign) and len(st.targets) == 1 and isinstance(st.targets[0], ast.Name) and any(
+                isinstance(c, ast.Call) and fi.module.resolve(dotted(c.func) or "") in ("yaml.safe_load", "yaml.load") for c in ast.walk(st.value)
+            ):
+                work.append((fi, st.targets[0].id))
+    seen = set()
+    while work:
+        fi, var = work.pop()
+        if (fi.fq, var) in seen or len(seen) > 200:
+            continue
+        seen.add((fi.fq, var))
+        out.append((fi, var))
+
+        def derived(e: ast.AST) -> bool:
+            if isinstance(e, ast.Name):
+                return e.id == var
+            if isinstance(e, (ast.DictComp, ast.ListComp, ast.GeneratorExp)):
+                it = e.generators[0].iter
+                return (isinstance(it, ast.Call) and isinstance(it.func, ast.Attribute) and isinstance(it.func.value, ast.Name) and it.func.value.id == var) or (isinstance(it, ast.Name) and it.id == var)
+            return False
+
+        for st in fi.local_nodes():
+            if isinstance(st, ast.Assign) and len(st.targets) == 1 and isinstance(st.targets[0], ast.Name) and st.targets[0].id != var and derived(st.value):
+                work.append((fi, st.targets[0].id))
+        for call, targets in g.callees(fi):
+            for t in g.flat_targets(targets):
+                if t.is_lambda or t.fq == fi.fq:
+                    continue
+                a = t.node.args
+                pos = [x.arg for x in a.posonlyargs + a.args]
+                if t.cls is not None and isinstance(call.func, ast.Attribute) and "staticmethod" not in t.decorators():
+                    pos = pos[1:]
+                bound = dict(zip(pos, call.args))
+                for k_ in call.keywords:
+                    if k_.arg:
+                        bound[k_.arg] = k_.value
+                for pname, v in bound.items():
+                    if derived(v):
+                        work.append((t, pname))
+    return out
+
+
+@rule("C01.R27")
+def r27_yaml_text(corpus: Corpus, rep: Report, tier: str):
+    rep.rule("C01.R27", "a key or value of a YAML-loaded mapping reaches docutils' Text / TextElement(raw, text) constructors only as a provable str (Text raises TypeError for bytes)")
+    rejects, text_elements = _docutils_text_constructors(corpus)
+    if not rejects:
+        rep.ok("C01.R27", "docutils.nodes:Text.__new__|bytes", "docutils/nodes.py", "this docutils accepts bytes in nodes.Text")
+        return
+    rep.saw_sibling("docutils/nodes.py")
+    n = 0
+    seen_keys: dict[str, int] = {}
+    for fi, var in _yaml_mappings(corpus):
+        cfg = get_cfg(fi)
+        for lp in fi.local_nodes():
+            if not isinstance(lp, ast.For):
+                continue
+            it, tg = lp.iter, lp.target
+            names: list[tuple[str, str]] = []
+            if isinstance(it, ast.Call) and isinstance(it.func, ast.Attribute) and isinstance(it.func.value, ast.Name) and it.func.value.id == var and not it.args:
+                if it.func.attr == "items" and isinstance(tg, ast.Tuple) and len(tg.elts) == 2:
+                    names = [(x.id, role) for x, role in zip(tg.elts, ("key", "value")) if isinstance(x, ast.Name)]
+                elif it.func.attr in ("keys", "values") and isinstance(tg, ast.Name):
+                    names = [(tg.id, it.func.attr[:-1])]
+            elif isinstance(it, ast.Name) and it.id == var and isinstance(tg, ast.Name):
+                names = [(tg.id, "key")]
+            for nm, role in names:
+                for c in sorted((x for b in lp.body for x in ast.walk(b) if isinstance(x, ast.Call)), key=lambda x: (x.lineno, x.col_offset)):
+                    full = fi.module.resolve(dotted(c.func) or "")
+                    if not full.startswith("docutils.nodes."):
+                        continue
+                    cls = full.rsplit(".", 1)[-1]
+                    sink = None
+                    if cls == "Text" and c.args and isinstance(c.args[0], ast.Name) and c.args[0].id == nm:
+                        sink = c.args[0]
+                    elif cls in text_elements and len(c.args) > 1 and isinstance(c.args[1], ast.Name) and c.args[1].id == nm:
+                        sink = c.args[1]
+                    if sink is None:
+                        continue
+                    n += 1
+                    k = f"{fi.fq}|{role} `{nm}` of {var} -> nodes.{cls}"
+                    seen_keys[k] = seen_keys.get(k, 0) + 1
+                    if seen_keys[k] > 1:
+                        k += f"#{seen_keys[k]}"
+                    site = fi.module.site(c)
+                    U = cfg.stmt_of(c)
+                    ok = any(pol and isinstance(t, ast.Call) and dotted(t.func) == "isinstance" and len(t.args) == 2 and unparse(t.args[0]) == nm and unparse(t.args[1]) == "str" for t, pol in _facts_at(fi, c))
+                    ok = ok or _normalised_before(fi, cfg, nm, U, {"str"})
+                    if not ok:
+                        # every binding that reaches the sink is a str by construction
+                        def strish(v: ast.expr) -> bool:
+                            return (
+                                isinstance(v, ast.JoinedStr) or (isinstance(v, ast.Constant) and isinstance(v.value, str))
+                                or (isinstance(v, ast.Call) and (dotted(v.func) in ("str", "repr", "json.dumps") or (isinstance(v.func, ast.Attribute) and v.func.attr in ("join", "format", "strip", "lower", "upper") and not isinstance(v.func.value, ast.Name))))
+                            )
+
+                        defs = [x for x in ast.walk(lp) if isinstance(x, ast.Name) and x.id == nm and isinstance(x.ctx, ast.Store)]
+                        reaching = []
+                        for d in defs:
+                            D = cfg.stmt_of(d)
+                            others = [cfg.stmt_of(o) for o in defs if o is not d]
+                            if D is U or cfg.paths_avoiding(D, U, lambda nd: any(nd is o for o in others if o is not D)):
+                                reaching.append(d)
+                        ok = bool(reaching) and all(isinstance(parent(d), ast.Assign) and len(parent(d).targets) == 1 and strish(parent(d).value) for d in reaching)
+                    if ok:
+                        rep.ok("C01.R27", k, site, "a str on every path (str(..) / isinstance guard / normalisation)")
+                    else:
+                        rep.violation(
+                            "C01.R27",
+                            k,
+                            site,
+                            f"`{short(c, 50)}` builds docutils text from the {role} `{nm}` of a YAML mapping, which need not be a str: `? !!binary aGVsbG8=` gives a bytes key and "
+                            "nodes.Text raises TypeError('expecting str data, not bytes') out of the parse",
+                        )
+    rep.expect_min("C01.R27", 2, "YAML keys / values handed to docutils text constructors")
+
+
 RULES = [
     r1_failure_mode_closure, r2_token_line, r3_html_attr_none, r4_reentry_guards, r5_loop_progress, r6_yaml_narrowing, r7_single_registration,
     r8_nullable_env_slots, r9_document_attributes, r10_config_divisors, r11_disable_syntax, r12_handler_attributes, r13_rebound_loop_key,
     r14_heading_offset, r15_registry_none, r16_settings_attributes, r17_transition_parent,
     r18_document_chosen_code, r19_pickled_config, r20_transform_reapplication, r21_detached_pending, r22_pending_components, r23_single_removal,
-    r24_empty_block_quotes, r25_newline_terminated_source, r26_inline_substitution,
+    r24_empty_block_quotes, r25_newline_terminated_source, r26_inline_substitution, r27_yaml_text,
 ]
 
 
@@ -4361,6 +4548,27 @@ def mutants(corpus: Corpus):
         out.append(Mutant("c01-disable-ignore-invalid-false", "C01.R11", mdm_.rel, splice(mdm_.src, dcall.args[1], "False"), expect="unknown names"))
     else:
         out.append(("c01-disable-ignore-invalid-dropped", "create_md_parser does not call md.disable(x, True)"))
+    # --- 74f6db6: a YAML key handed to nodes.Text without being made a str (R27) ---
+    f = base.func("DocutilsRenderer.dict_to_fm_field_list")
+    kif = find_node(f, lambda n: isinstance(n, ast.If) and isinstance(n.test, ast.UnaryOp) and "isinstance(key, str)" in unparse(n.test))
+    if kif is not None:
+        out.append(Mutant("c01-front-matter-key-not-made-str", "C01.R27", base.rel, splice(base.src, kif, "pass"), expect="key `key`"))
+        out.append(Mutant("c01-front-matter-key-bytes-accepted", "C01.R27", base.rel, splice(base.src, kif.test, "not isinstance(key, (str, bytes))"), expect="key `key`"))
+    else:
+        out.append(("c01-front-matter-key-not-made-str", "dict_to_fm_field_list has no `if not isinstance(key, str)` normalisation"))
+    # --- the raw clean-up takes all traversals up front as a list of lists (R23, second spelling) ---
+    pmd = corpus.mod("parsers.docutils_")
+    f = pmd.func("Parser.parse")
+    outer = find_node(f, lambda n: isinstance(n, ast.For) and len(n.body) == 1 and isinstance(n.body[0], ast.For) and isinstance(n.target, ast.Name)
+                      and any(isinstance(c, ast.Call) and isinstance(c.func, ast.Attribute) and c.func.attr == "remove" for c in ast.walk(n.body[0])))
+    if outer is not None:
+        inner = outer.body[0]
+        src_ = splice(pmd.src, inner.iter, "found_")  # the inner loop comes later in the file: splice it first
+        src_ = splice(src_, outer.iter, f"[{unparse(inner.iter)} for {unparse(outer.target)} in {unparse(outer.iter)}]")
+        src_ = splice(src_, outer.target, "found_")
+        out.append(Mutant("c01-raw-cleanup-traversals-up-front", "C01.R23", pmd.rel, src_, expect="in found_"))
+    else:
+        out.append(("c01-raw-cleanup-traversals-up-front", "Parser.parse: nested removal loops not found"))
     # --- round 14 (second hunt): repairs reverted and partially weakened ---
     # 7bb3517 HideEmptyBlockQuotes (R24)
     tmx = corpus.mod("mdit_to_docutils.transforms")
